@@ -213,3 +213,30 @@ Proof.
   apply W_step; [discriminate|vm_compute; discriminate|vm_compute; discriminate|].
   change (24 + round8 (size_at c03_example_bytes 24)) with 32. constructor.
 Qed.
+
+(* ---- provided Iterator methods: nth(k) is the k-th item of the run; when the run ends in a panic, nth(k) beyond the
+   items produced before it is that panic ---- *)
+Lemma tagiter_nth_run fuel p h m b blen : forall nxt items e k,
+  tagiter_run fuel p h m b blen nxt = (items, e) -> e <> Fault FFuel ->
+  rmap fst (tagiter_nth p h m b blen nxt k) =
+    match nth_error items k with
+    | Some r => Val (Some r)
+    | None => rmap (fun _ => None) e
+    end.
+Proof.
+  induction fuel as [|f IH]; intros nxt items e k H Hf; cbn [tagiter_run] in H.
+  - injection H as <- <-. contradiction.
+  - destruct k as [|k']; cbn [tagiter_nth];
+      destruct (tagiter_next p h m b blen nxt) as [[[r|] nxt']|er| |fl].
+    + destruct (tagiter_run f p h m b blen nxt') as [l e']. injection H as <- <-. reflexivity.
+    + injection H as <- <-. reflexivity.
+    + injection H as <- <-. reflexivity.
+    + injection H as <- <-. reflexivity.
+    + injection H as <- <-. reflexivity.
+    + destruct (tagiter_run f p h m b blen nxt') as [l e'] eqn:E. injection H as <- <-. cbn [nth_error].
+      apply (IH nxt' l e' k' E Hf).
+    + injection H as <- <-. reflexivity.
+    + injection H as <- <-. reflexivity.
+    + injection H as <- <-. reflexivity.
+    + injection H as <- <-. reflexivity.
+Qed.
